@@ -27,7 +27,11 @@ local r = mt.x .. (mt + 1) .. string.rep("ab", 3) .. #s .. string.format("%d:%5.
 local parts = {} for w in ("a,b,c"):gmatch("[^,]+") do parts[#parts + 1] = w end
 table.sort(t, function(a, b) return a > b end)
 local co = coroutine.wrap(function(a) local b = coroutine.yield(a + 1) return b * 2 end)
-return r .. table.concat(parts) .. t[1] .. co(1) .. co(4) .. select("#", pcall(error, "e")) .. math.floor(3.7) .. os.time{year=2000, month=1, day=1, hour=0}
+-- debug and error routes that consult the prototype's call-site and line tables
+local hs = {function() return debug.traceback("tb") end, function() return tostring(debug.getinfo(1, "n").name) end, function() error("boom") end}
+local dbg = #hs[1]() .. hs[2]() .. select(2, pcall(hs[3])) .. select(2, xpcall(function() return hs[3]() end, debug.traceback)):sub(1, 20) .. debug.getinfo(1, "l").currentline
+local function tailer() return hs[2]() end
+return r .. table.concat(parts) .. t[1] .. co(1) .. co(4) .. select("#", pcall(error, "e")) .. math.floor(3.7) .. os.time{year=2000, month=1, day=1, hour=0} .. dbg .. tailer()
 `
 
 const producerSrc = `for i = 1, N do ch:send(i) ch:send({i, tostring(i)}) end ch:close()`
